@@ -35,8 +35,54 @@ CHECK_DEADLOCK FALSE
 """
 OWN = {"MatchSetExact", "Distinct", "ScoreOrdered", "LimitSubset", "LimitCount", "QueryFailed", "TableUnreadable",
        "TableDiverged", "StepFailed"}
+# classes of matching-set errors that describe one named deviation of the as-built code (see TextQueryOps.tla)
+DEVIATION = {
+    ("and-matched-on-some-terms", "indexed"): "AndDropsAbsentTerm",
+    ("must-not-and-matched-on-some-terms", "indexed"): "AndDropsAbsentTerm",
+    ("and-matched-on-some-terms", "unindexed"): "FlatAndIsOr",
+    ("must-not-and-matched-on-some-terms", "unindexed"): "FlatAndIsOr",
+    ("phrase-missed", "unindexed"): "PhraseSkipsUnindexed",
+    ("must-not-phrase-missed", "unindexed"): "PhraseSkipsUnindexed",
+    ("missed-beside-repeated-term", "unindexed"): "FlatScorerCountsOccurrences",
+    ("must-not-missed-beside-repeated-term", "unindexed"): "FlatScorerCountsOccurrences",
+    ("purged-row-in-index", ""): "PurgedRowsStayInIndex",
+}
 REQUIRED = ["match-or", "match-and", "phrase", "bool", "limit", "upper", "with_deleted", "with_unindexed", "unindexed_match",
             "index", "optimize", "compact", "delete", "append", "nonempty", "multi_fragment"]
+
+
+def _pinned():
+    """Regression scenarios kept from earlier runs (appended to the TLC-generated ones), one per deviation."""
+    v0 = [{"limit": 0, "upper": False}]
+    m = lambda ts, op: ["match", ts, op]  # noqa: E731
+    rows = [[1, [1, 2]], [2, [2, 1]], [3, [1, 1, 2]]]
+    out = []
+    # AndDropsAbsentTerm: no indexed document contains word 4
+    out.append({"id": 9001, "stable": False, "steps": [
+        {"op": "create", "rows": rows, "max_rows_per_file": 1 << 20}, {"op": "index", "with_position": True},
+        {"op": "query", "q": m([1, 4], "and"), "variants": v0},
+        {"op": "query", "q": ["bool", [], [m([1], "or")], [m([1, 4], "and")]], "variants": v0}]})
+    # FlatAndIsOr, PhraseSkipsUnindexed, FlatScorerCountsOccurrences: rows appended after indexing
+    out.append({"id": 9002, "stable": False, "steps": [
+        {"op": "create", "rows": rows, "max_rows_per_file": 1 << 20}, {"op": "index", "with_position": True},
+        {"op": "append", "rows": [[4, [3, 1]], [5, [1, 2, 3]], [6, [2, 2, 2, 1]]], "max_rows_per_file": 1 << 20},
+        {"op": "query", "q": m([1, 2], "and"), "variants": v0},
+        {"op": "query", "q": ["phrase", [1, 2]], "variants": v0},
+        {"op": "query", "q": m([2], "or"), "variants": v0},
+        {"op": "query", "q": ["bool", [m([1], "or")], [], [["phrase", [1, 2]]]], "variants": v0},
+        {"op": "optimize", "mode": "merge"},
+        {"op": "query", "q": m([1, 2], "and"), "variants": v0},
+        {"op": "query", "q": ["phrase", [1, 2]], "variants": v0},
+        {"op": "query", "q": m([2], "or"), "variants": v0}]})
+    # PurgedRowsStayInIndex: stable row ids, delete + compaction after indexing
+    for i, stable in enumerate((True, False)):
+        out.append({"id": 9003 + i, "stable": stable, "steps": [
+            {"op": "create", "rows": rows + [[4, [2]], [5, [1, 3, 2]]], "max_rows_per_file": 1 << 20},
+            {"op": "index", "with_position": True}, {"op": "delete", "keys": [4, 5]}, {"op": "compact"},
+            {"op": "query", "q": m([2], "or"), "variants": v0 + [{"limit": 2, "upper": False}]},
+            {"op": "query", "q": m([3], "or"), "variants": v0},
+            {"op": "query", "q": ["phrase", [1, 2]], "variants": v0}]})
+    return out
 
 
 def _gen(name, pool, steps, inv, timeout=1500):
@@ -196,6 +242,7 @@ def run(prop, tier, replay):
         rnd.shuffle(picked)
         scenarios = [build_scenario(i + 1, h, pools[1 + (i + vlib.seed()) % 3], by_kind, rnd, nq=4 if quick else 6)
                      for i, h in enumerate(picked)]
+        scenarios += _pinned()
         gen_info = {"histories_generated_by_tlc": len(hists), "histories_with_index": len(useful),
                     "histories_replayed": len(picked), "query_universe": {k: len(v) for k, v in by_kind.items()},
                     "history_steps": steps, "gen_stats": gen["stats"]}
@@ -219,9 +266,12 @@ def run(prop, tier, replay):
             bad_scn.add(scn)
             ev = json.loads(lines[pos - 1])
             result = ev["extra"]["results"][j - 1] if j >= 1 else None
-            sig = {"invariant": clause, "class": cls[0]}
-            if cls[1]:
-                sig["where"] = cls[1]
+            if tuple(cls) in DEVIATION:
+                sig = {"invariant": "MatchSetExact", "deviation": DEVIATION[tuple(cls)]}
+            else:
+                sig = {"invariant": clause, "class": cls[0]}
+                if cls[1]:
+                    sig["where"] = cls[1]
             out.report(sig, f"{clause} {cls}: scenario {scn} step {i} {json.dumps(ev['step'], ensure_ascii=False)[:200]} -> "
                             f"{json.dumps(result)[:300] if result else ev['res'] + ' ' + ev.get('text', '')[:200]} table={json.dumps(ev['tbl'])[:200]}",
                        {"scenario": by_id.get(scn), "step": i, "variant": j, "clause": clause, "class": cls, "event": ev})
